@@ -59,6 +59,7 @@ type Ctx struct {
 	Res     *ShardResult
 
 	distinct   map[uint64]struct{}
+	bits       []uint64 // thorough tier: 2^30-bit bitmap instead of the exact set (conservative count)
 	crash      []byte // mmap'd crash buffer (nil if unavailable)
 	crashFile  *os.File
 	cur        *Case
@@ -146,15 +147,34 @@ func readCrashBuf(path string) *Case {
 	return cs
 }
 
+// DistinctBitmapBits is the size of the bitmap used in the thorough tier.
+const DistinctBitmapBits = 1 << 30
+
+func (c *Ctx) mark(h uint64) {
+	if c.Tier == "thorough" {
+		if c.bits == nil {
+			c.bits = make([]uint64, DistinctBitmapBits/64)
+		}
+		// mix, then take 30 bits
+		h ^= h >> 33
+		h *= 0xff51afd7ed558ccd
+		h ^= h >> 33
+		i := h & (DistinctBitmapBits - 1)
+		c.bits[i>>6] |= 1 << (i & 63)
+		return
+	}
+	c.distinct[h] = struct{}{}
+}
+
 // Nontrivial records the current case as non-trivial by the monitor's rule.
 func (c *Ctx) Nontrivial() {
 	if c.cur != nil {
-		c.distinct[c.cur.Hash()] = struct{}{}
+		c.mark(c.cur.Hash())
 	}
 }
 
 // NontrivialKey records a non-trivial case under an explicit identity.
-func (c *Ctx) NontrivialKey(key string) { c.distinct[hashString(key)] = struct{}{} }
+func (c *Ctx) NontrivialKey(key string) { c.mark(hashString(key)) }
 
 // Count bumps a named counter of the evidence.
 func (c *Ctx) Count(name string) { c.Res.Counters[name]++ }
